@@ -3,7 +3,7 @@
    ok_events / in_input on event streams; wf_forest on the result). *)
 From Coq Require Import List ZArith Bool Permutation.
 From TM Require Import Gram.PTables Gram.Run Gram.Validator Gram.Events Gram.Events_proofs Gram.Events_strict Gram.Events_run
-  Gram.TreeBuilder Gram.TreeBuilder_proofs Gram.Events_nest.
+  Gram.TreeBuilder Gram.TreeBuilder_proofs Gram.Events_nest Gram.Pending Gram.Pending_sim Gram.Pending_nest.
 Import ListNotations.
 Local Open Scope Z_scope.
 
@@ -82,11 +82,82 @@ Proof. exact tree_nest. Qed.
 Theorem C20_nested_table_is_checkable : forall evt, nested_tableb evt = true -> nested_table evt.
 Proof. exact nested_tableb_sound. Qed.
 
+(* Reported skipped tokens (injected comments, invalid_token): Gram/Pending.v extends the loop by the lexer output
+   with skipped tokens, fetchNext's pending list and flush (called when a token is shifted, as in the template).
+   For EVERY machine, table, fixWhitespace setting, lexer output, fuel and outcome: erasing the skipped tokens from
+   the lexer output and the skipped-token callbacks from the listener stream gives EXACTLY the run of Events.xrun on
+   the real tokens (same outcome, stack, node events in the same order), and the skipped-token callbacks, followed
+   by what is still pending and what the lexer has not produced, are the skipped tokens in lexer order (none lost,
+   none reported twice): the stream is a merge of the old node stream with the skipped tokens in source order. *)
+Theorem C20_flushed_stream_is_merge :
+  forall m evt fixws fuel start end_state eoi_off lex o c',
+  pxrun fuel m evt fixws start end_state eoi_off lex = (o, c') ->
+  xrun fuel m evt fixws start end_state eoi_off (reals lex) = (o, erase c') /\
+  skips_of (pc_events c') ++ pc_pending c' ++ skipped (pc_lex c') = skipped lex.
+Proof. exact pxrun_sim. Qed.
+
+(* Producer half WITH reported skipped tokens. For EVERY machine, laminar event table, lexer output (real tokens and
+   reported skipped tokens, all non-empty, in source order, not overlapping: every skipped token lies in a gap
+   between two consecutive real tokens, before the first or after the last), fuel and outcome: under the hypotheses
+   of C20_parser_events_are_well_nested on the final stack, the WHOLE listener stream of the fixWhitespace loop --
+   node events and skipped tokens, in callback order -- is well nested and inside the input. No further condition:
+   flush runs only in a shift, so a skipped token of the gap before token b is reported after every node that was
+   reduced before b is shifted; with fixWhitespace such a node ends at the end of a token shifted earlier (or is the
+   empty range at b's offset), hence lies before the skipped token; every node reported later has both ends at token
+   boundaries, so it contains the skipped token or is disjoint from it. *)
+Theorem C20_parser_events_with_skipped_tokens_are_well_nested :
+  forall m evt rl eoi_off fuel start end_state lex o c',
+  nested_table evt ->
+  Forall (fun t => t_sym t <> 0) (reals lex) ->
+  ordered (map l_range lex) eoi_off ->
+  Forall (fun r => 0 <= fst r) (map l_range lex) -> 0 <= eoi_off ->
+  pxrun fuel m evt true start end_state eoi_off lex = (o, c') ->
+  Forall (fun e => wf_tree evt rl (x_tree e)) (pc_stack c') ->
+  Forall (fun e => is_leaf (x_tree e) \/ ~ In (eoi_off, eoi_off) (leaves (x_tree e))) (pc_stack c') ->
+  ok_events (stream_of c') = true /\ in_input eoi_off (stream_of c') = true.
+Proof. exact pxrun_events_nested. Qed.
+
+(* the same with the condition on the machine (end-of-input is only shifted into the end state) *)
+Theorem C20_parser_events_with_skipped_tokens_are_well_nested_eoi :
+  forall m evt rl eoi_off fuel start end_state lex o c',
+  nested_table evt -> eoi_stops m end_state ->
+  Forall (fun t => t_sym t <> 0) (reals lex) ->
+  ordered (map l_range lex) eoi_off ->
+  Forall (fun r => 0 <= fst r) (map l_range lex) -> 0 <= eoi_off ->
+  pxrun fuel m evt true start end_state eoi_off lex = (o, c') ->
+  Forall (fun e => wf_tree evt rl (x_tree e)) (pc_stack c') ->
+  ok_events (stream_of c') = true /\ in_input eoi_off (stream_of c') = true.
+Proof. exact pxrun_events_nested_eoi. Qed.
+
+(* and the AST builder fed with that stream builds a well-formed forest with exactly the reported nodes and tokens *)
+Theorem C20_parser_with_skipped_tokens_and_builder :
+  forall m evt rl eoi_off fuel start end_state lex o c',
+  nested_table evt ->
+  Forall (fun t => t_sym t <> 0) (reals lex) ->
+  ordered (map l_range lex) eoi_off ->
+  Forall (fun r => 0 <= fst r) (map l_range lex) -> 0 <= eoi_off ->
+  pxrun fuel m evt true start end_state eoi_off lex = (o, c') ->
+  Forall (fun e => wf_tree evt rl (x_tree e)) (pc_stack c') ->
+  Forall (fun e => is_leaf (x_tree e) \/ ~ In (eoi_off, eoi_off) (leaves (x_tree e))) (pc_stack c') ->
+  wf_forest (rev (build (stream_of c'))) = true /\
+  Permutation (forest_nodes (rev (build (stream_of c')))) (stream_of c').
+Proof. exact pxrun_builder_correct. Qed.
+
+(* once nothing is pending and the lexer has no skipped token left (e.g. after end-of-input was shifted), every
+   skipped token has been reported, in source order *)
+Theorem C20_all_skipped_tokens_reported :
+  forall m evt fixws eoi_off fuel start end_state lex o c',
+  pxrun fuel m evt fixws start end_state eoi_off lex = (o, c') ->
+  pc_pending c' = [] -> skipped (pc_lex c') = [] -> skips_of (pc_events c') = skipped lex.
+Proof. exact pxrun_all_reported. Qed.
+
 (* NOT proved here (partial): the same for the loop with error recovery (Gram/Recover.v: the error entry pushed by
-   recoverFromError spans dropped stack entries and skipped tokens), for injected/reported tokens and for the
+   recoverFromError spans dropped stack entries and skipped tokens; flush is also called with the error symbol there
+   and may keep tokens pending), for reported REAL tokens (reportConsumedNext of mapped tokens) and for the
    hand-written js loop; and for parsers without fixWhitespace (there a node ending with an empty symbol extends
-   over the following whitespace, see C02). These are monitored on every run: ok_events and in_input are
-   evaluated on the listener callbacks of the shipped tm, js, json and test parsers on valid and broken inputs. *)
+   over the following whitespace, see C02, and C20_skipped_tokens_without_fixWhitespace_refuted above). These are
+   monitored on every run: ok_events and in_input are evaluated on the listener callbacks of the shipped tm, js,
+   json and test parsers on valid and broken inputs, and of generated parsers (c20.gen). *)
 
 (* non-vacuity: a stream with nested, empty and out-of-order nodes *)
 Example C20_example :
@@ -114,6 +185,45 @@ Example C20_producer_example :
   ok_events (xc_events c) = true /\ in_input 9 (xc_events c) = true.
 Proof. vm_compute. repeat split; reflexivity. Qed.
 
+(* non-vacuity with skipped tokens: the same tables, comments (type 9, 8) before the first token, inside nodes, between two
+   nodes and after the last token; right-recursive grammar, so all reductions happen at the end of input, after the
+   comments of all gaps were flushed, and the trailing comment is reported by the shift of end-of-input *)
+Definition lex0 : list ltok :=
+  [LSkip (9, 0, 1); LReal (mkTok 2 1 2); LSkip (9, 2, 3); LReal (mkTok 3 3 4); LReal (mkTok 3 4 5); LSkip (9, 5, 6);
+   LSkip (8, 6, 7); LReal (mkTok 2 7 8); LReal (mkTok 3 8 9); LReal (mkTok 3 10 11); LSkip (9, 11, 13)].
+
+Example C20_skipped_example :
+  let '(o, c) := pxrun 100 m0 evt0 true 0 6 14 lex0 in
+  o = Accept /\
+  forallb (fun e => wf_treeb evt0 (zn [4; 0]) (x_tree e)) (pc_stack c) = true /\
+  pc_events c = [PSkip (9, 0, 1); PSkip (9, 2, 3); PSkip (9, 5, 6); PSkip (8, 6, 7); PNode (3, 14, 14); PNode (2, 8, 11);
+                 PNode (1, 7, 11); PNode (2, 3, 5); PNode (1, 1, 11); PSkip (9, 11, 13)] /\
+  pc_pending c = [] /\ ok_events (stream_of c) = true /\ in_input 14 (stream_of c) = true /\
+  rev (build (stream_of c)) =
+    [BNode 9 0 1 [];
+     BNode 1 1 11 [BNode 9 2 3 []; BNode 2 3 5 []; BNode 9 5 6 []; BNode 8 6 7 []; BNode 1 7 11 [BNode 2 8 11 []]];
+     BNode 9 11 13 []; BNode 3 14 14 []].
+Proof. vm_compute. repeat split; reflexivity. Qed.
+
+(* fixWhitespace is necessary once skipped tokens are reported (the property's scope: "trims trailing whitespace from
+   node ranges or reports no skipped tokens"): the same machine, table and lexer output WITHOUT fixWhitespace -- the
+   nodes ending with the empty N0 extend to the offset of end-of-input, T1[7,14) and T1[1,14) contain the trailing
+   comment [11,13) but are reported before it (it is flushed by the shift of end-of-input) *)
+Theorem C20_skipped_tokens_without_fixWhitespace_refuted :
+  exists m evt eoi_off fuel start end_state lex c',
+  nested_table evt /\ Forall (fun t => t_sym t <> 0) (reals lex) /\ ordered (map l_range lex) eoi_off /\
+  pxrun fuel m evt false start end_state eoi_off lex = (Accept, c') /\
+  nodes_of (pc_events c') = [(3, 14, 14); (2, 8, 11); (1, 7, 14); (2, 3, 5); (1, 1, 14)] /\
+  skips_of (pc_events c') = skipped lex /\
+  ok_events (nodes_of (pc_events c')) = true /\ ok_events (stream_of c') = false.
+Proof.
+  exists m0, evt0, 14, 100%nat, 0, 6, lex0, (snd (pxrun 100 m0 evt0 false 0 6 14 lex0)).
+  split; [apply nested_tableb_sound; vm_compute; reflexivity|].
+  split; [repeat constructor; discriminate|].
+  split; [vm_compute; repeat split; discriminate|].
+  vm_compute. repeat split; reflexivity.
+Qed.
+
 Print Assumptions C20_builder_correct.
 Print Assumptions C20_parser_events_are_well_nested.
 Print Assumptions C20_parser_events_are_well_nested_eoi.
@@ -121,3 +231,9 @@ Print Assumptions C20_parser_and_builder.
 Print Assumptions C20_events_of_a_tree_are_nested.
 Print Assumptions C20_nested_table_is_checkable.
 Print Assumptions C20_add_node_keeps_the_forest.
+Print Assumptions C20_flushed_stream_is_merge.
+Print Assumptions C20_parser_events_with_skipped_tokens_are_well_nested.
+Print Assumptions C20_parser_with_skipped_tokens_and_builder.
+Print Assumptions C20_all_skipped_tokens_reported.
+Print Assumptions C20_parser_events_with_skipped_tokens_are_well_nested_eoi.
+Print Assumptions C20_skipped_tokens_without_fixWhitespace_refuted.
